@@ -6,6 +6,7 @@ import (
 	"fmt"
 	"os"
 	"path/filepath"
+	"regexp"
 	"sort"
 	"strconv"
 	"strings"
@@ -198,7 +199,7 @@ func main() {
 		if ct.NoBody {
 			continue
 		}
-		if *flagFn != "" && !strings.Contains(ct.Name, *flagFn) {
+		if *flagFn != "" && !fnMatch(ct.Name) {
 			continue
 		}
 		if prop != "" && !contractMentions(ct, prop) {
@@ -378,4 +379,17 @@ func writeJSON(path string, v interface{}) error {
 	}
 	os.MkdirAll(filepath.Dir(path), 0o755) //nolint:errcheck
 	return os.WriteFile(path, append(b, '\n'), 0o644)
+}
+
+// fnMatch: -fn is a substring, or a regular expression when it contains regexp metacharacters other than ().*
+func fnMatch(name string) bool {
+	if strings.Contains(name, *flagFn) {
+		return true
+	}
+	if strings.ContainsAny(*flagFn, "|^$") {
+		if ok, err := regexp.MatchString(*flagFn, name); err == nil && ok {
+			return true
+		}
+	}
+	return false
 }
